@@ -1215,7 +1215,7 @@ def corr_smd_number(ck: Ck):
         bones = {f'{o.name}#{i}': o for i, o in enumerate(objs)}
         f = io.BytesIO()
         try:
-            Mesh(bones, {}, []).export(f)
+            U.limited(Mesh(bones, {}, []).export, f)
             data = f.getvalue()
             sec = data[data.index(b'nodes\n') + 6:data.index(b'end\n')]
             flat: list[int] | None = []
@@ -1233,6 +1233,10 @@ def corr_smd_number(ck: Ck):
         except Exception as e:      # anything else is a disagreement (the model only knows ValueError)
             got = 'Some ' + nl([888888])
             ck.extra.setdefault('smd_number_exception', repr(e)[:200])
+            ck.violation(f'smd:write-error:{type(e).__name__}:skeleton', f'Mesh.export of a skeleton without animation fails with {e!r}'[:300]
+                         + ' (bones as (name, parent): an index, a copy of a bone, or a bone outside the mesh)', {'format': 'smd-skeleton', 'bones': spec})
+            if U.TIMEOUTS[0] >= 3:
+                break
         lit = '(' + coq_list('(mkBone %d %s)' % (k, 'None' if p is None else f'(Some {p})') for k, p in model) + ', ' + got + ')'
         js = json.dumps(spec)
         if len(spec) >= 2:
@@ -1321,6 +1325,8 @@ def trigger(fmt: str, small: Any, res: tuple) -> str:
         if ('\\\\' in js or "'" in js) and stage == 'value-diff':
             return 'block-text-escaped'
     if fmt == 'pcf' and stage == 'value-diff':
+        if 'children' in detail and colliding_names(small):
+            return 'names-equal-after-casefold-or-strip'
         if detail.endswith('.len'):
             return 'name-copied-into-options'
         return 'option-name-case'
@@ -1357,6 +1363,7 @@ def search_format(ck: Ck, name: str, n: int) -> None:
     fmt = U.FORMATS[name]
     found: dict[str, tuple] = {}
     shrinks = 0
+    hung = 0
     for i in range(n):
         spec = fmt.gen(ck.rng)
         ck.count(f'roundtrip_{name}')
@@ -1370,6 +1377,14 @@ def search_format(ck: Ck, name: str, n: int) -> None:
                 ck.count('generator_rejected_by_constructor')
             continue
         kind = (res[0], res[1])
+        if res[1] == 'ImplTimeout':
+            # the implementation hangs on this input: a failing input as it is (shrinking would wait for the limit again and again)
+            key = f'{name}:{res[0]}:{res[1]}:{trigger(name, spec, res)}'
+            found.setdefault(key, (kind, spec, res))
+            hung += 1
+            if hung >= 3:
+                break
+            continue
         if sum(1 for k in found.values() if k[0] == kind) >= 3:
             continue
         if shrinks >= 12:
@@ -1452,11 +1467,13 @@ def image_extra(ck: Ck, n: int) -> None:
     from srctools.choreo import Entry, parse_scenes_image, save_scenes_image_sync
     fmt = U.FORMATS['scenes-image']
     for _ in range(n):
+        if U.TIMEOUTS[0] >= 3:
+            break                   # a writer / reader hangs (already reported with its input by the round-trip search)
         spec = U.image_gen(ck.rng)
         ck.count('image_invariants')
         try:
             version, entries = U.image_build(spec)
-            data = U.image_write((version, entries))
+            data = U.limited(U.image_write, (version, entries))
         except Exception as e:
             ck.violation(f'scenes-image:write-error:{type(e).__name__}:invariants', 'scenes.image could not be written', {'format': 'scenes-image', 'spec': spec})
             continue
@@ -1540,8 +1557,8 @@ def sample_files(ck: Ck) -> None:
         ck.count('sample_files')
         try:
             want = fmt.canon(obj)
-            out1 = fmt.write(obj)
-            obj2 = fmt.read(out1)
+            out1 = U.limited(fmt.write, obj)
+            obj2 = U.limited(fmt.read, out1)
             d = U.diff_path(want, fmt.canon(obj2))
             if d is not None:
                 ck.violation(f'sample:{label}:value-diff:{d}', f'sample file {label}: value differs after write/read at {d}', {'file': label})
@@ -1570,7 +1587,10 @@ def sample_files(ck: Ck) -> None:
             ck.violation(f'sample:test_choreo/sample.vcd:binary:{type(e).__name__}', repr(e)[:300], {'file': str(p)})
     p = tests / 'test_vmt' / 'test_export.vmt'
     if p.exists():
-        one('test_vmt/test_export.vmt', U.FORMATS['vmt'], Material.parse(p.read_text()))
+        try:
+            one('test_vmt/test_export.vmt', U.FORMATS['vmt'], U.limited(Material.parse, p.read_text()))
+        except Exception as e:
+            ck.violation(f'sample:test_vmt/test_export.vmt:{type(e).__name__}', f'sample file could not be read: {e!r}'[:300], {'file': str(p)})
     p = tests / 'test_particles' / 'sample.pcf'
     if p.exists():
         one('test_particles/sample.pcf', U.FORMATS['pcf'], list(Particle.parse(open(p, 'rb')).values()))
@@ -1644,9 +1664,17 @@ def run(ck: Ck) -> None:
     pending: list[tuple] = []
 
     def launch(gen) -> None:
+        # building the cases calls the implementation: under a watchdog far above what the stage takes (quick: < 30 s loaded, thorough: 205 s)
+        what = getattr(gen, '__name__', 'correspondence')
         try:
-            jobs = next(gen)
+            jobs = U.limited(next, gen, seconds=900 if not ck.thorough else 3600)
         except StopIteration:
+            return
+        except U.ImplTimeout as e:
+            ck.obligation(f'correspondence:{what}', False, f'building the cases did not finish: a call into the implementation does not return ({e})')
+            ck.tie_broken.append(f'correspondence {what}: a call into the implementation does not return')
+            ck.violation(f'{what}:implementation-did-not-return', f'{what}: a writer / reader called while building the correspondence cases did not '
+                         'return within the watchdog limit (the round-trip search names the input)', {'stage': what, 'limit': str(e)})
             return
         pending.append((gen, [pool.submit(lambda j=j: ck.coq_eval(j[0], j[1], name=j[2], preamble=j[3])) for j in jobs]))
 
